@@ -15,12 +15,11 @@ func init() {
 }
 
 const (
-	tLimitStore   = pkgRLStoreIf + ".LimitStore"
-	tRateLimiter  = pkgLimiter + ".rateLimiter"
-	fnNextQuota   = pkgLimiter + ".calculateNextQuota"
-	fnGetQuota    = pkgLimiter + ".getLimitQuota"
-	fnSetFCLimit  = pkgLimiter + ".setFlowControlLimit"
-	fnCalcUpState = "(*" + pkgLimiter + ".rateLimiter).calculateUpstreamCondition"
+	tLimitStore  = pkgRLStoreIf + ".LimitStore"
+	tRateLimiter = pkgLimiter + ".rateLimiter"
+	fnNextQuota  = pkgLimiter + ".calculateNextQuota"
+	fnGetQuota   = pkgLimiter + ".getLimitQuota"
+	fnSetFCLimit = pkgLimiter + ".setFlowControlLimit"
 )
 
 // c07QuotaOf returns the float64(getLimitQuota(param_k.LimitItemDetail, …)) value of fn for
@@ -177,18 +176,42 @@ func c07(c *eng.Ctx) {
 		}
 		c.Check("R2", up, "per-upstream mutex held to the exit", up.Pos(), deferUnlock == 1 && plainUnlock == 0,
 			"the mutex of r.upstreamLock[upstream] is released by one deferred Unlock dominated by its Lock")
+		// the report path together with the helpers (all callers known) its tail may have been moved
+		// into; a helper's parameter stands for the operand every call site binds to it
+		region := c.W.Region(up)
+		upv := func(v ssa.Value) ssa.Value { return c07UpTo(c.W, v, up) }
+		regionCalls := func(match func(ssa.CallInstruction) bool) []ssa.CallInstruction {
+			var out []ssa.CallInstruction
+			for _, rf := range region {
+				for _, ci := range eng.Calls(rf) {
+					if match(ci) {
+						out = append(out, ci)
+					}
+				}
+			}
+			return out
+		}
+		// before(target, pred): every path to target — from the entry of its own function and, when
+		// that is a helper, from the entry of the report path to the helper's call — passes pred
+		before := func(target ssa.Instruction, pred func(ssa.Instruction) bool) bool {
+			return eng.AlwaysBefore(target.Parent(), target, pred)
+		}
 		// reads feeding the computation
+		cuFn, _, _ := c07CalcUpstream(c)
+		nqFn := c.W.Func(pkgLimiter, "calculateNextQuota")
+		isCalcUp := func(ci ssa.CallInstruction) bool { return cuFn != nil && eng.CalleeFn(ci) == cuFn }
 		var feeds []ssa.Value
-		for _, ci := range eng.Calls(up) {
-			if eng.IsCall(ci, fnNextQuota, fnCalcUpState) {
-				feeds = append(feeds, ci.Common().Args...)
+		for _, ci := range regionCalls(func(ci ssa.CallInstruction) bool {
+			return isCalcUp(ci) || (nqFn != nil && eng.CalleeFn(ci) == nqFn) || eng.IsCall(ci, fnNextQuota)
+		}) {
+			for _, a := range ci.Common().Args {
+				feeds = append(feeds, upv(a))
 			}
 		}
 		nReads := 0
-		for _, ci := range eng.Calls(up) {
-			if !eng.IsCall(ci, "("+tLimitStore+").Get", "("+tLimitStore+").ListUpstream", "("+tLimitStore+").List") {
-				continue
-			}
+		for _, ci := range regionCalls(func(ci ssa.CallInstruction) bool {
+			return eng.IsCall(ci, "("+tLimitStore+").Get", "("+tLimitStore+").ListUpstream", "("+tLimitStore+").List")
+		}) {
 			call, ok := ci.(*ssa.Call)
 			if !ok {
 				continue
@@ -207,28 +230,28 @@ func c07(c *eng.Ctx) {
 			if cs, _ := eng.CallResultOf(eng.Args(call)[len(eng.Args(call))-1]); cs != nil && eng.IsCall(cs, pkgLimiter+".upstreamStateConditionName") {
 				what = "upstream state"
 			}
-			c.Check("R2", up, fmt.Sprintf("read of %s inside the critical section", what), call.Pos(), eng.AlwaysBefore(up, call, isLock),
+			c.Check("R2", up, fmt.Sprintf("read of %s inside the critical section", what), call.Pos(), before(call, isLock),
 				"a store read that feeds the quota computation executes before the per-upstream mutex is taken: two overlapping reports both see the same remaining quota and together over-commit the limit")
 		}
 		if nReads < 1 {
 			c.Fail("R2", up, "reads feeding the computation", up.Pos(), "the upstream state (recorded sum and global limit) is not read from the store")
 		}
-		saves := eng.CallsTo(up, "("+tLimitStore+").Save")
+		saves := regionCalls(func(ci ssa.CallInstruction) bool { return eng.IsCall(ci, "("+tLimitStore+").Save") })
 		for i, s := range saves {
-			c.Check("R2", up, fmt.Sprintf("save#%d inside the critical section", i+1), s.Pos(), eng.AlwaysBefore(up, s, isLock), "")
+			c.Check("R2", up, fmt.Sprintf("save#%d inside the critical section", i+1), s.Pos(), before(s, isLock), "")
 		}
-		for _, ci := range eng.CallsTo(up, fnCalcUpState) {
-			c.Check("R2", up, "recomputation of the allocated sum inside the critical section", ci.Pos(), eng.AlwaysBefore(up, ci, isLock), "")
+		for _, ci := range regionCalls(isCalcUp) {
+			c.Check("R2", up, "recomputation of the allocated sum inside the critical section", ci.Pos(), before(ci, isLock), "")
 		}
 
 		// ---- R3
 		var s1, s2, cu ssa.CallInstruction
-		for _, ci := range eng.CallsTo(up, fnCalcUpState) {
+		for _, ci := range regionCalls(isCalcUp) {
 			cu = ci
 		}
 		for _, s := range saves {
 			a := eng.Args(s)
-			if a[1] == ssa.Value(up.Params[2]) {
+			if upv(a[1]) == ssa.Value(up.Params[2]) {
 				s1 = s
 			} else if cu != nil && c.Slicer().DerivesFrom(a[1], func(v ssa.Value) bool { return v == eng.ResultValue(cu) }) {
 				s2 = s
@@ -249,16 +272,28 @@ func c07(c *eng.Ctx) {
 				is := func(x ssa.CallInstruction) func(ssa.Instruction) bool {
 					return func(i ssa.Instruction) bool { return i == x.(ssa.Instruction) }
 				}
-				order := eng.AlwaysBefore(up, r, is(s2)) && eng.AlwaysBefore(up, s2.(ssa.Instruction), is(cu)) && eng.AlwaysBefore(up, cu.(ssa.Instruction), is(s1))
+				// the last step may sit in a helper that reports one error: it precedes the return
+				// on the paths on which the helper reported success
+				order := eng.AlwaysBeforeOK(up, r, is(s2)) && before(s2, is(cu)) && before(cu, is(s1))
 				c.Check("R3", up, "success ⇒ save, recompute, save in order", r.Pos(), order, "the allocated sum must be recomputed from the store after the instance's new quota is saved, and saved, before the report is acknowledged")
-				e1 := eng.GuardedByNil(r, func(v ssa.Value) bool { return v == eng.ResultValue(s1) }, true)
-				e2 := eng.GuardedByNil(r, func(v ssa.Value) bool { return v == eng.ResultValue(s2) }, true)
-				c.Check("R3", up, "success ⇒ both Save errors were nil", r.Pos(), e1 && e2, "a failed Save must not be acknowledged as success")
+				errNil := func(s ssa.CallInstruction) bool {
+					return eng.HoldsOnSuccess(r, func(at ssa.Instruction) bool {
+						return eng.GuardedByNil(at, func(v ssa.Value) bool { return v == eng.ResultValue(s) }, true)
+					})
+				}
+				c.Check("R3", up, "success ⇒ both Save errors were nil", r.Pos(), errNil(s1) && errNil(s2), "a failed Save must not be acknowledged as success")
 				c.Check("R3", up, "the saved condition is returned", r.Pos(), res[0] == ssa.Value(up.Params[2]), "")
 			})
 			// the recomputation reads the store it saved to, and the saved sum is its result
-			ca := eng.Args(cu)
-			c.Check("R3", up, "recomputation uses the same store", cu.Pos(), len(ca) == 2 && ca[0] == eng.Receiver(s1) && eng.Receiver(s1) == eng.Receiver(s2), "")
+			// (the operands bound to the store and the state parameter, wherever they stand)
+			var ca []ssa.Value
+			if _, pStore, pState := c07CalcUpstream(c); pStore != nil {
+				a0, a1 := c13ArgFor(cu, c13ParamIndex(pStore.(*ssa.Parameter))), c13ArgFor(cu, c13ParamIndex(pState.(*ssa.Parameter)))
+				if a0 != nil && a1 != nil {
+					ca = []ssa.Value{upv(a0), upv(a1)}
+				}
+			}
+			c.Check("R3", up, "recomputation uses the same store", cu.Pos(), len(ca) == 2 && ca[0] == upv(eng.Receiver(s1)) && upv(eng.Receiver(s1)) == upv(eng.Receiver(s2)), "")
 			// the sum is refreshed on the stored state object itself: if the following Save of the state fails
 			// (write-through API store), the record in memory still accounts for the quota just saved
 			stored := false
@@ -270,7 +305,8 @@ func c07(c *eng.Ctx) {
 			c.Check("R3", up, "recomputation updates the stored state object in place", cu.Pos(), stored,
 				"the allocated sum must be refreshed on the object obtained from the store (not on a copy): with a copy, a failed Save of the state after the instance's quota was saved leaves a stale sum on record and the next report spends the same remaining quota again")
 			// same upstream key for both saves
-			c.Check("R3", up, "both saves keyed by the condition's upstream", s1.Pos(), sameLoad(eng.Args(s1)[0], eng.Args(s2)[0]), "")
+			k1, k2 := upv(eng.Args(s1)[0]), upv(eng.Args(s2)[0])
+			c.Check("R3", up, "both saves keyed by the condition's upstream", s1.Pos(), sameLoad(k1, k2), "")
 		}
 	}
 }
@@ -515,7 +551,19 @@ func c07Fixtures(c *eng.Ctx) {
 // c07State: R4 and R5.
 func c07State(c *eng.Ctx) {
 	// ---- R4
-	if us := c.MustFunc(pkgLimiter, "updateUpstreamStateCondition"); us != nil {
+	// updateUpstreamStateCondition by name, or the function that consults the recorded statuses by
+	// schema name (a comma-ok lookup in util.FlowControlStatusToMap(...))
+	if us := c13Anchor(c, pkgLimiter, "", "updateUpstreamStateCondition", func(fn *ssa.Function) bool {
+		found := false
+		eng.Instrs(fn, func(ins ssa.Instruction) {
+			if l, ok := ins.(*ssa.Lookup); ok && l.CommaOk {
+				if cc, _ := eng.CallResultOf(l.X); cc != nil && eng.IsCall(cc, pkgRLUtil+".FlowControlStatusToMap") {
+					found = true
+				}
+			}
+		})
+		return found
+	}); us != nil {
 		// the lookup of the previously recorded status by schema name
 		var look *ssa.Lookup
 		eng.Instrs(us, func(ins ssa.Instruction) {
@@ -567,28 +615,32 @@ func c07State(c *eng.Ctx) {
 		}
 	}
 	// ---- R5
-	cu := c.MustMethod(pkgLimiter, "rateLimiter", "calculateUpstreamCondition")
+	cu, cuStore, cuState := c07CalcUpstream(c)
 	if cu == nil {
 		return
 	}
+	// calculateUpstreamCondition together with the helpers (all callers known) its loops may have
+	// been spread over; a value that is a helper's parameter stands for the argument bound to it
+	region := c.W.Region(cu)
+	up := func(v ssa.Value) ssa.Value { return c07UpTo(c.W, v, cu) }
+	slUp := c.Slicer().WithUp()
 	// the conditions summed are ListUpstream(of the state's own upstream)
-	lists := eng.CallsTo(cu, "("+tLimitStore+").ListUpstream")
-	okList := len(lists) == 1 && eng.Receiver(lists[0]) == ssa.Value(cu.Params[1]) &&
-		eng.FieldLoadOf(eng.Args(lists[0])[0], pkgV1alpha1+".RateLimitSpec", "UpstreamCluster")
+	var lists []ssa.CallInstruction
+	for _, rf := range region {
+		lists = append(lists, eng.CallsTo(rf, "("+tLimitStore+").ListUpstream")...)
+	}
+	okList := len(lists) == 1 && up(eng.Receiver(lists[0])) == cuStore &&
+		eng.FieldLoadOf(up(eng.Args(lists[0])[0]), pkgV1alpha1+".RateLimitSpec", "UpstreamCluster")
 	c.Check("R5", cu, "sums over every condition of the state's upstream", cu.Pos(), okList, "the allocated sum is computed from ListUpstream(state.Spec.UpstreamCluster) of the store passed in")
 	// accumulations: x.F += item.F with item from Spec.LimitItemConfigurations (not Status)
 	type acc struct{ typ, field string }
 	for _, a := range []acc{{pkgV1alpha1 + ".MaxRequestsInflightFlowControlSchema", "Max"}, {pkgV1alpha1 + ".TokenBucketFlowControlSchema", "QPS"}, {pkgV1alpha1 + ".TokenBucketFlowControlSchema", "Burst"}} {
 		found := false
 		good := false
-		eng.Instrs(cu, func(ins ssa.Instruction) {
-			st, isSt := ins.(*ssa.Store)
-			if !isSt || !eng.FieldAddrOf(st.Addr, a.typ, a.field) {
-				return
-			}
+		for _, st := range eng.StoresToField(region, a.typ, a.field) {
 			add, isAdd := st.Val.(*ssa.BinOp)
 			if !isAdd || add.Op != token.ADD {
-				return
+				continue
 			}
 			found = true
 			// one operand is the previous value of the same cell, the other a Spec item's field
@@ -604,45 +656,57 @@ func c07State(c *eng.Ctx) {
 				other = add.X
 			}
 			if other == nil || !eng.FieldLoadOf(other, a.typ, a.field) {
-				return
+				continue
 			}
-			fromSpec := c.Slicer().DerivesFrom(other, func(v ssa.Value) bool {
+			// the item may reach the accumulation as the parameter of an extracted helper: its
+			// origin is followed into the arguments of the helper's call sites
+			fromSpec := slUp.DerivesFrom(other, func(v ssa.Value) bool {
 				return eng.FieldLoadOf(v, pkgV1alpha1+".RateLimitSpec", "LimitItemConfigurations")
 			})
-			fromStatus := c.Slicer().DerivesFrom(other, func(v ssa.Value) bool {
+			fromStatus := slUp.DerivesFrom(other, func(v ssa.Value) bool {
 				return eng.FieldLoadOf(v, pkgV1alpha1+".RateLimitStatus", "LimitItemStatuses")
 			})
 			// every iteration of the two enclosing loops reaches the accumulation unless the condition is the state record
 			good = fromSpec && !fromStatus
-		})
+		}
 		c.Check("R5", cu, "sum += Spec "+a.field+" of every item", cu.Pos(), found && good, "the recorded sum accumulates the quota on record (Spec) of each instance condition")
 	}
 	// the only skip inside the loop over conditions is the state record itself
 	skipOK := true
 	nSkip := 0
-	for _, l := range findRangeLoops(cu) {
-		cc, _ := eng.CallResultOf(l.S)
-		if cc == nil || !eng.IsCall(cc, "("+tLimitStore+").ListUpstream") {
-			continue
+	listed := false
+	for _, rf := range region {
+		for _, l := range findRangeLoops(rf) {
+			if slUp.DerivesFrom(l.S, func(v ssa.Value) bool {
+				cc, _ := eng.CallResultOf(v)
+				return cc != nil && eng.IsCall(cc, "("+tLimitStore+").ListUpstream")
+			}) {
+				listed = true
+			}
 		}
-		// edges from the body region straight back to the header without reaching an accumulation
-		for _, b := range cu.Blocks {
-			iff, ok := b.Instrs[len(b.Instrs)-1].(*ssa.If)
-			if !ok || !eng.InLoop(b) || b == l.Header {
-				continue
-			}
-			r := eng.RelOf(iff.Cond, true)
-			isName := func(v ssa.Value) bool {
-				return eng.FieldLoadOf(v, "k8s.io/apimachinery/pkg/apis/meta/v1.ObjectMeta", "Name")
-			}
-			isStateName := func(v ssa.Value) bool {
-				x, _ := eng.CallResultOf(v)
-				return x != nil && eng.IsCall(x, pkgLimiter+".upstreamStateConditionName")
-			}
-			if (isName(r.X) && isStateName(r.Y)) || (isName(r.Y) && isStateName(r.X)) {
-				nSkip++
-				if r.Op != token.EQL && r.Op != token.NEQ {
-					skipOK = false
+	}
+	if listed {
+		// tests of the condition's name against the state record's name, in the loop body or in
+		// a helper the body was moved into
+		for _, rf := range region {
+			for _, b := range rf.Blocks {
+				iff, ok := b.Instrs[len(b.Instrs)-1].(*ssa.If)
+				if !ok || (rf == cu && !eng.InLoop(b)) {
+					continue
+				}
+				r := eng.RelOf(iff.Cond, true)
+				isName := func(v ssa.Value) bool {
+					return eng.FieldLoadOf(up(v), "k8s.io/apimachinery/pkg/apis/meta/v1.ObjectMeta", "Name")
+				}
+				isStateName := func(v ssa.Value) bool {
+					x, _ := eng.CallResultOf(up(v))
+					return x != nil && eng.IsCall(x, pkgLimiter+".upstreamStateConditionName")
+				}
+				if (isName(r.X) && isStateName(r.Y)) || (isName(r.Y) && isStateName(r.X)) {
+					nSkip++
+					if r.Op != token.EQL && r.Op != token.NEQ {
+						skipOK = false
+					}
 				}
 			}
 		}
@@ -650,13 +714,88 @@ func c07State(c *eng.Ctx) {
 	c.Check("R5", cu, "only the state record is skipped", cu.Pos(), skipOK && nSkip == 1, "inside the loop over the upstream's conditions exactly one test compares the condition's name with the state record's name")
 	// the result is stored as the state's status
 	stored := false
-	for _, st := range eng.StoresToField([]*ssa.Function{cu}, pkgV1alpha1+".RateLimitStatus", "LimitItemStatuses") {
+	for _, st := range eng.StoresToField(region, pkgV1alpha1+".RateLimitStatus", "LimitItemStatuses") {
 		root, _ := eng.AccessPath(st.Addr)
-		if root == ssa.Value(cu.Params[2]) {
+		if up(root) == cuState {
 			stored = true
 		}
 	}
 	c.Check("R5", cu, "sums stored as the state's status", cu.Pos(), stored, "the new sums must replace Status.LimitItemStatuses of the state condition passed in (and returned)")
+}
+
+type c07cuResult struct {
+	cu           *ssa.Function
+	store, state ssa.Value
+}
+
+var c07cuCache = map[*eng.Ctx]c07cuResult{}
+
+// c07CalcUpstream resolves the function that recomputes the allocated sums of an upstream
+// (calculateUpstreamCondition): by name, or — renamed, or turned into a function that takes the
+// store — the function of the limiter that lists the upstream's conditions and replaces the
+// state's Status.LimitItemStatuses. store and state are its parameters of type LimitStore and
+// *RateLimitCondition.
+func c07CalcUpstream(c *eng.Ctx) (cu *ssa.Function, store, state ssa.Value) {
+	if r, ok := c07cuCache[c]; ok {
+		return r.cu, r.store, r.state
+	}
+	defer func() { c07cuCache[c] = c07cuResult{cu, store, state} }()
+	cu = c13Anchor(c, pkgLimiter, "rateLimiter", "calculateUpstreamCondition", func(fn *ssa.Function) bool {
+		lists, writes := false, false
+		for _, rf := range eng.WithClosures(fn) {
+			if len(eng.CallsTo(rf, "("+tLimitStore+").ListUpstream")) > 0 {
+				lists = true
+			}
+		}
+		if len(eng.StoresToField(c.W.Region(fn), pkgV1alpha1+".RateLimitStatus", "LimitItemStatuses")) > 0 {
+			writes = true
+		}
+		return lists && writes
+	})
+	if cu == nil {
+		return nil, nil, nil
+	}
+	for _, p := range cu.Params {
+		switch eng.TypeName(p.Type()) {
+		case tLimitStore:
+			if store == nil {
+				store = p
+			}
+		case pkgV1alpha1 + ".RateLimitCondition":
+			if state == nil {
+				state = p
+			}
+		}
+	}
+	if store == nil || state == nil {
+		c.Fail("engine", nil, "unresolved-anchor parameters of "+eng.FuncName(cu), 0, "no LimitStore / *RateLimitCondition parameter")
+		return nil, nil, nil
+	}
+	return cu, store, state
+}
+
+// c07UpTo resolves a value that is a parameter of a helper of anchor's region (all callers
+// known) to the value every call site binds to it, repeatedly; parameters of anchor itself are
+// not resolved further (they are the rule's reference points).
+func c07UpTo(w *eng.World, v ssa.Value, anchor *ssa.Function) ssa.Value {
+	for d := 0; d < eng.LiftDepth; d++ {
+		p, ok := v.(*ssa.Parameter)
+		if !ok || p.Parent() == anchor {
+			return v
+		}
+		ups := w.UpArgSites(p)
+		if len(ups) == 0 {
+			return v
+		}
+		same := ups[0].Arg
+		for _, u := range ups[1:] {
+			if u.Arg != same {
+				return v
+			}
+		}
+		v = same
+	}
+	return v
 }
 
 // c07ReportOrdering records, under the given rule id, the obligations "every nil-error return of
@@ -668,14 +807,22 @@ func c07ReportOrdering(c *eng.Ctx, rule string) {
 	if up == nil {
 		return
 	}
-	saves := eng.CallsTo(up, "("+tLimitStore+").Save")
+	// the report path together with the helpers its tail may have been moved into
+	region := c.W.Region(up)
+	var saves []ssa.CallInstruction
 	var s1, s2, cu ssa.CallInstruction
-	for _, ci := range eng.CallsTo(up, fnCalcUpState) {
-		cu = ci
+	cuFn, _, _ := c07CalcUpstream(c)
+	for _, rf := range region {
+		saves = append(saves, eng.CallsTo(rf, "("+tLimitStore+").Save")...)
+		if cuFn != nil {
+			for _, ci := range eng.CallsToFn(rf, cuFn) {
+				cu = ci
+			}
+		}
 	}
 	for _, s := range saves {
 		a := eng.Args(s)
-		if a[1] == ssa.Value(up.Params[2]) {
+		if c07UpTo(c.W, a[1], up) == ssa.Value(up.Params[2]) {
 			s1 = s
 		} else if cu != nil && c.Slicer().DerivesFrom(a[1], func(v ssa.Value) bool { return v == eng.ResultValue(cu) }) {
 			s2 = s
@@ -684,6 +831,9 @@ func c07ReportOrdering(c *eng.Ctx, rule string) {
 	if s1 == nil || s2 == nil || cu == nil {
 		c.Fail(rule, up, "save → recompute → save", up.Pos(), "Save(report), calculateUpstreamCondition and Save(state) not all found")
 		return
+	}
+	before := func(target ssa.Instruction, pred func(ssa.Instruction) bool) bool {
+		return eng.AlwaysBefore(target.Parent(), target, pred)
 	}
 	n := 0
 	eng.Instrs(up, func(ins ssa.Instruction) {
@@ -699,7 +849,7 @@ func c07ReportOrdering(c *eng.Ctx, rule string) {
 		is := func(x ssa.CallInstruction) func(ssa.Instruction) bool {
 			return func(i ssa.Instruction) bool { return i == x.(ssa.Instruction) }
 		}
-		order := eng.AlwaysBefore(up, r, is(s2)) && eng.AlwaysBefore(up, s2.(ssa.Instruction), is(cu)) && eng.AlwaysBefore(up, cu.(ssa.Instruction), is(s1))
+		order := eng.AlwaysBeforeOK(up, r, is(s2)) && before(s2, is(cu)) && before(cu, is(s1))
 		c.Check(rule, up, fmt.Sprintf("acknowledged report#%d ⇒ saved, sum recomputed, state saved", n), r.Pos(), order,
 			"a report is acknowledged on a path that skips saving it or recomputing the allocated sum (e.g. an \"unchanged report\" shortcut): the sum on record stays stale, so capacity freed by the cleanup of a dead instance is never handed to the survivors")
 	})
